@@ -32,3 +32,40 @@ Proof.
   destruct (Z.ltb_spec p (2 ^ 63)); [|lia]. split; [reflexivity|].
   apply Z.div_le_lower_bound; lia.
 Qed.
+
+(* ---- C15: PoA's CreateValidator validation is x/staking's own, for any value >= min-self-delegation >= 1 ---- *)
+Lemma create_validate_parity c value msd :
+  0 < msd -> msd <= value ->
+  staking_create_validate c true value msd = poa_create_validate c.
+Proof.
+  intros Hm Hv. unfold staking_create_validate, poa_create_validate.
+  destruct (cb_addr_ok c); cbn; [|reflexivity].
+  destruct (cb_has_pubkey c); cbn; [|reflexivity].
+  destruct (Z.leb_spec value 0); [lia|]. cbn.
+  destruct (desc_empty (cb_desc c)); [reflexivity|].
+  destruct (comm_is_zero_struct c); [reflexivity|].
+  destruct (commission_validate _ _ _); try reflexivity.
+  destruct (Z.leb_spec msd 0); [lia|]. destruct (Z.ltb_spec value msd); [lia|]. reflexivity.
+Qed.
+
+(* the rule set, spelled out: accepted iff every listed condition holds *)
+Lemma commission_validate_ok r m c :
+  commission_validate (Some r) (Some m) (Some c) = VOk <-> 0 <= r <= m /\ m <= dec_one /\ 0 <= c <= m.
+Proof.
+  unfold commission_validate.
+  destruct (Z.ltb_spec m 0); [split; [discriminate|lia]|].
+  destruct (Z.ltb_spec dec_one m); [split; [discriminate|lia]|].
+  destruct (Z.ltb_spec r 0); [split; [discriminate|lia]|].
+  destruct (Z.ltb_spec m r); [split; [discriminate|lia]|].
+  destruct (Z.ltb_spec c 0); [split; [discriminate|lia]|].
+  destruct (Z.ltb_spec m c); [split; [discriminate|lia]|].
+  split; [lia|reflexivity].
+Qed.
+
+Lemma ensure_length_spec d :
+  ensure_length d = true <->
+  dl_moniker d <= 70 /\ dl_identity d <= 3000 /\ dl_website d <= 140 /\ dl_security d <= 140 /\ dl_details d <= 280.
+Proof.
+  unfold ensure_length, max_moniker, max_identity, max_website, max_security, max_details.
+  rewrite !andb_true_iff, !Z.leb_le. tauto.
+Qed.
